@@ -1,9 +1,307 @@
-import EphVerif.Model.Relay
-import EphVerif.Spec.Relay
+/-
+C25 — relay bridges deliver bytes only to the bridged partner.
+
+All statements are about `run init evs` for an arbitrary list of events `evs` (any number of
+clients, any interleaving of accepts, received chunks, EOFs, errors and partial writes), i.e. about
+every reachable state of the relay model (EphVerif/Model/Relay.lean).  The predicates
+`Symmetric`, `ClaimUnique`, `BridgePaired`, `Delivery`, `Isolation`, `Teardown` are the ones of
+the specification (EphVerif/Spec/Relay.lean) that the monitor evaluates on the real server's lines.
+-/
+import EphVerif.Lemmas.C25Fifo
 
 namespace EphVerif.C25
-open EphVerif.Relay
+open EphVerif.Relay EphVerif.RelaySpec
 
-theorem kPeerIdBytes_eq : EphVerif.Gen.C25.kPeerIdBytes = 32 := by decide
+/-- generated constant obligation: the identity a connector sends is a 32-byte peer id -/
+theorem identity_is_32_bytes : EphVerif.Gen.C25.kPeerIdBytes = 32 := by decide
+
+/-- `C25.inv`: in every reachable state the pairing table is symmetric (and pairs two different live
+    clients), a peer is claimed by at most one connector, and a bridged session has a bridged partner. -/
+theorem inv (evs : List Event) :
+    Symmetric (viewOf (run init evs)) ∧ ClaimUnique (viewOf (run init evs)) ∧ BridgePaired (viewOf (run init evs)) := by
+  obtain ⟨hI, hA⟩ := run_ok evs
+  generalize run init evs = σ at hI hA
+  refine ⟨?_, ?_, ?_⟩
+  · intro a ha
+    obtain ⟨c, s, _, hg, rfl⟩ := mem_viewOf.mp ha
+    cases hp : s.partner with
+    | none => simp [peerOf, hp, whenSome]
+    | some b =>
+      have h1 : σ.partnerOf c = some b := by simp [State.partnerOf, hg, hp]
+      simp only [peerOf, hp, whenSome]
+      exact ⟨fun e => hI.noself c (e ▸ h1), by rw [partnerOf_viewOf hA]; exact hI.sym c b h1⟩
+  · intro a ha b hb hsome heq
+    obtain ⟨c, s, _, hg, rfl⟩ := mem_viewOf.mp ha
+    obtain ⟨d, s2, _, hg2, rfl⟩ := mem_viewOf.mp hb
+    simp only [peerOf] at hsome heq ⊢
+    cases hp : s.partner with
+    | none => simp [hp] at hsome
+    | some t =>
+      have h1 : σ.partnerOf c = some t := by simp [State.partnerOf, hg, hp]
+      have h2 : σ.partnerOf d = some t := by simp [State.partnerOf, hg2, ← heq, hp]
+      have := (hI.sym c t h1).symm.trans (hI.sym d t h2)
+      simpa using this
+  · intro a ha hb
+    obtain ⟨c, s, _, hg, rfl⟩ := mem_viewOf.mp ha
+    simp only [peerOf, decide_eq_true_eq] at hb
+    obtain ⟨p, ps, hp, _, hps, _, hpb⟩ := partner_of_bridged hI hg hb
+    simp only [peerOf, hp, isSomeAnd]
+    rw [isBridged_viewOf hA]
+    simp [State.stateOf, hps, hpb]
+
+/-- `C25.delivery` (model form): a chunk received from a bridged client is appended, whole, at the end of
+    exactly its partner's write buffer; no other session, registration or descriptor changes. -/
+theorem delivery (evs : List Event) (c : Client) (data : Bytes) (s : Session)
+    (hc : (run init evs).get c = some s) (hb : s.state = .bridged) :
+    ∃ p ps, s.partner = some p ∧ p ≠ c ∧ (run init evs).get p = some ps ∧ ps.state = .bridged ∧ ps.partner = some c ∧
+      (step (run init evs) (.recv c data)).get p = some { ps with writeBuf := ps.writeBuf ++ data } ∧
+      (∀ a, a ≠ p → (step (run init evs) (.recv c data)).get a = (run init evs).get a) ∧
+      (step (run init evs) (.recv c data)).out = .queued p (.relay c data) :: (run init evs).out ∧
+      (step (run init evs) (.recv c data)).registered = (run init evs).registered := by
+  obtain ⟨hI, _⟩ := run_ok evs
+  generalize run init evs = σ at hI hc
+  obtain ⟨p, ps, hp, hne, hps, hpp, hpb, heq⟩ := step_recv_bridged hI hc hb data
+  refine ⟨p, ps, hp, hne, hps, hpb, hpp, ?_, ?_, ?_, ?_⟩
+  · rw [heq]; simp
+  · intro a ha; rw [heq]; simp [ha]
+  · rw [heq]; simp
+  · rw [heq]; rfl
+
+/-- write buffers are FIFO: a partial write puts the first `n` queued bytes on the wire and keeps the rest -/
+theorem flush_fifo (σ : State) (c : Client) (n : Nat) (s : Session) (hc : σ.get c = some s) :
+    (step σ (.flush c n)).out = .sent c (s.writeBuf.take n) :: σ.out ∧
+    (step σ (.flush c n)).get c = some { s with writeBuf := s.writeBuf.drop n } ∧
+    s.writeBuf.take n ++ s.writeBuf.drop n = s.writeBuf := by
+  simp [step, hc]
+
+/-- `C25.delivery`, "in order and without loss": in every reachable state and for every client, the bytes
+    already put on the wire to it followed by the bytes waiting in its write buffer are exactly the bytes ever
+    queued for it (`qbytes`: control replies and relayed chunks, in the order they were queued); once the client
+    is closed, what was sent is a prefix of what was queued.  Together with `delivery` (each chunk of a bridged
+    client is queued whole, once, for its partner only) this is in-order, loss-free delivery while both ends
+    stay connected. -/
+theorem fifo (evs : List Event) (d : Client) :
+    (∀ s, (run init evs).get d = some s →
+      sbytes (run init evs).out d ++ s.writeBuf = qbytes (run init evs).out d) ∧
+    ((run init evs).get d = none → ∃ r, sbytes (run init evs).out d ++ r = qbytes (run init evs).out d) :=
+  ⟨(fifo_run evs).alive d, (fifo_run evs).dead d⟩
+
+/-- `C25.delivery` (specification form) -/
+theorem delivery_spec (evs : List Event) (c : Client) (data : Bytes) :
+    Delivery (viewOf (run init evs)) c (some data)
+      (obsOf (newOuts (run init evs) (step (run init evs) (.recv c data)))) := by
+  obtain ⟨hI, hA⟩ := run_ok evs
+  generalize run init evs = σ at hI hA
+  intro hbr
+  rw [isBridged_viewOf hA] at hbr
+  simp only [State.stateOf] at hbr
+  cases hc : σ.get c with
+  | none => simp [hc] at hbr
+  | some s =>
+    have hb : s.state = .bridged := by simpa [hc] using hbr
+    obtain ⟨p, ps, hp, hne, hps, hpp, hpb, heq⟩ := step_recv_bridged hI hc hb data
+    have hout : (step σ (.recv c data)).out = [.queued p (.relay c data)] ++ σ.out := by rw [heq]; simp
+    rw [newOuts_eq hout, partnerOf_viewOf hA]
+    simp [State.partnerOf, hc, hp, whenSome, obsOf, Out.queuedOf, Out.closedOf, Item.bytes]
+
+/-- Every item a step queues: control text for the client the event came from, or — only for the client
+    whose bridge with that client is established after the step — the BEGIN line and that client's own
+    relayed bytes.  In particular no relayed byte reaches a client before its own bridge exists, and relayed
+    bytes reach only the sender's bridge partner. -/
+theorem relay_only_to_bridged_partner (evs : List Event) (ev : Event) (d : Client) (it : Item)
+    (h : Out.queued d it ∈ newOuts (run init evs) (step (run init evs) ev)) :
+    (d = ev.client ∧ ∃ t, it = .ctrl t) ∨
+    ((step (run init evs) ev).stateOf d = some .bridged ∧ (step (run init evs) ev).partnerOf d = some ev.client ∧
+      (step (run init evs) ev).stateOf ev.client = some .bridged ∧ ∀ src data, it = .relay src data → src = ev.client) := by
+  obtain ⟨hI, hA⟩ := run_ok evs
+  obtain ⟨_, _, new, hout, hok⟩ := step_ok _ ev hI hA
+  rw [newOuts_eq hout] at h
+  exact hok _ h
+
+/-- `C25.delivery`, "only its partner / not before its own bridge" (specification form) -/
+theorem isolation_spec (evs : List Event) (ev : Event) :
+    Isolation (viewOf (run init evs)) (viewOf (step (run init evs) ev)) ev.client
+      (obsOf (newOuts (run init evs) (step (run init evs) ev))) := by
+  obtain ⟨hI, hA⟩ := run_ok evs
+  generalize run init evs = σ at hI hA
+  obtain ⟨hI', hA', new, hout, hok⟩ := step_ok σ ev hI hA
+  rw [newOuts_eq hout]
+  intro e he
+  simp only [obsOf, List.mem_filterMap, List.mem_reverse] at he
+  obtain ⟨o, ho, hq⟩ := he
+  cases o with
+  | sent _ _ => simp [Out.queuedOf] at hq
+  | closed _ => simp [Out.queuedOf] at hq
+  | queued d it =>
+    simp only [Out.queuedOf, Option.some.injEq] at hq
+    subst hq
+    simp only
+    have hitem := hok _ ho
+    by_cases hd : d = ev.client
+    · simp only [hd, if_true]
+      -- a bridged client's step queues exactly one item, for its partner
+      cases hbr : (viewOf σ).isBridged ev.client with
+      | false => rfl
+      | true =>
+        exfalso
+        rw [isBridged_viewOf hA] at hbr
+        rcases hitem with ⟨_, t, rfl⟩ | ⟨_, hp, _, _⟩
+        · -- control text to a bridged sender: impossible, its step is a pure relay
+          cases ev with
+          | recv c data =>
+            simp only [Event.client] at hbr hd ho
+            simp only [State.stateOf] at hbr
+            cases hc : σ.get c with
+            | none => simp [hc] at hbr
+            | some s =>
+              have hb : s.state = .bridged := by simpa [hc] using hbr
+              obtain ⟨p, ps, _, hne, hps, _, _, heq⟩ := step_recv_bridged hI hc hb data
+              have hout' : (step σ (.recv c data)).out = [.queued p (.relay c data)] ++ σ.out := by rw [heq]; simp
+              have := List.append_cancel_right (hout.symm.trans hout')
+              subst this
+              simp at ho
+          | accept c =>
+            have : (step σ (.accept c)).out = σ.out := by
+              simp only [step]; split <;> rfl
+            have : new = [] := by
+              have h := hout.symm.trans this
+              simpa using h
+            subst this; simp at ho
+          | eof c =>
+            simp only [Event.client] at hbr
+            simp only [State.stateOf] at hbr
+            cases hc : σ.get c with
+            | none => simp [hc] at hbr
+            | some s =>
+              obtain ⟨_, hcs⟩ := closeSession_out hI c s hc
+              have hout2 : (step σ (.eof c)).out = (closeSession σ c).out := rfl
+              rcases hcs with ⟨_, h⟩ | ⟨p, _, _, _, _, h⟩ | ⟨_, _, _, _, _, h⟩
+              · have := List.append_cancel_right (hout.symm.trans (hout2.trans (by rw [h]; rfl : _ = [Out.closed c] ++ σ.out)))
+                subst this; simp at ho
+              · have := List.append_cancel_right (hout.symm.trans (hout2.trans (by rw [h]; rfl : _ = [Out.closed c, Out.closed p] ++ σ.out)))
+                subst this; simp at ho
+              · have := List.append_cancel_right (hout.symm.trans (hout2.trans (by rw [h]; rfl : _ = [Out.closed c] ++ σ.out)))
+                subst this; simp at ho
+          | err c =>
+            simp only [Event.client] at hbr
+            simp only [State.stateOf] at hbr
+            cases hc : σ.get c with
+            | none => simp [hc] at hbr
+            | some s =>
+              obtain ⟨_, hcs⟩ := closeSession_out hI c s hc
+              have hout2 : (step σ (.err c)).out = (closeSession σ c).out := rfl
+              rcases hcs with ⟨_, h⟩ | ⟨p, _, _, _, _, h⟩ | ⟨_, _, _, _, _, h⟩
+              · have := List.append_cancel_right (hout.symm.trans (hout2.trans (by rw [h]; rfl : _ = [Out.closed c] ++ σ.out)))
+                subst this; simp at ho
+              · have := List.append_cancel_right (hout.symm.trans (hout2.trans (by rw [h]; rfl : _ = [Out.closed c, Out.closed p] ++ σ.out)))
+                subst this; simp at ho
+              · have := List.append_cancel_right (hout.symm.trans (hout2.trans (by rw [h]; rfl : _ = [Out.closed c] ++ σ.out)))
+                subst this; simp at ho
+          | flush c n =>
+            simp only [Event.client] at hbr
+            simp only [State.stateOf] at hbr
+            cases hc : σ.get c with
+            | none => simp [hc] at hbr
+            | some s =>
+              have hout' : (step σ (.flush c n)).out = [.sent c (s.writeBuf.take n)] ++ σ.out := by simp [step, hc]
+              have := List.append_cancel_right (hout.symm.trans hout')
+              subst this; simp at ho
+        · -- "partner of d is the sender" with d the sender itself contradicts `noself`
+          rw [hd] at hp
+          exact hI'.noself _ hp
+    · simp only [hd, if_false]
+      rcases hitem with ⟨h, _⟩ | ⟨h1, h2, h3, _⟩
+      · exact absurd h hd
+      · refine ⟨(isBridged_viewOf hA' d).mpr h1, ?_, (isBridged_viewOf hA' _).mpr h3⟩
+        rw [partnerOf_viewOf hA']; exact h2
+
+/-- `C25.teardown`: when one side of an established bridge disconnects (EOF or error) the relay closes the
+    other side in the same step. -/
+theorem teardown (evs : List Event) (c : Client) :
+    Teardown (viewOf (run init evs)) c (obsOf (newOuts (run init evs) (step (run init evs) (.eof c)))) ∧
+    Teardown (viewOf (run init evs)) c (obsOf (newOuts (run init evs) (step (run init evs) (.err c)))) := by
+  obtain ⟨hI, hA⟩ := run_ok evs
+  generalize run init evs = σ at hI hA
+  have key : ∀ ev, (step σ ev).out = (closeSession σ c).out →
+      Teardown (viewOf σ) c (obsOf (newOuts σ (step σ ev))) := by
+    intro ev hev hbr
+    rw [isBridged_viewOf hA] at hbr
+    simp only [State.stateOf] at hbr
+    cases hc : σ.get c with
+    | none => simp [hc] at hbr
+    | some s =>
+      have hb : s.state = .bridged := by simpa [hc] using hbr
+      obtain ⟨p, ps, hp, _, hps, _, hpb⟩ := partner_of_bridged hI hc hb
+      obtain ⟨_, hcs⟩ := closeSession_out hI c s hc
+      rw [partnerOf_viewOf hA]
+      simp only [State.partnerOf, hc, Option.bind_some, hp, whenSome]
+      rcases hcs with ⟨h, _⟩ | ⟨p', ps', hp', hps', _, h⟩ | ⟨p', ps', hp', hps', hst', _⟩
+      · simp [hp] at h
+      · have e : p' = p := by simpa [hp] using hp'.symm
+        subst e
+        have hout : (step σ ev).out = [.closed c, .closed p'] ++ σ.out := by rw [hev, h]; rfl
+        rw [newOuts_eq hout]
+        simp [obsOf, Out.closedOf]
+      · have e : p' = p := by simpa [hp] using hp'.symm
+        subst e
+        have : ps' = ps := by simpa [hps] using hps'.symm
+        subst this
+        simp [hpb] at hst'
+  exact ⟨key _ rfl, key _ rfl⟩
+
+/-! ### non-vacuity -/
+
+section examples
+open EphVerif.Gen.C25
+
+def idA : Bytes := List.replicate 64 97   -- "aaaa…"
+def idB : Bytes := List.replicate 64 98
+def idC : Bytes := List.replicate 64 99
+def registerLine (k : Bytes) : Bytes := cmdRegister ++ [32] ++ k ++ [10]
+def connectLine (self target : Bytes) : Bytes := cmdConnect ++ [32] ++ self ++ [32] ++ target ++ [10]
+def identity : Bytes := List.replicate 32 7
+
+/-- a target (1) and a connector (2) bridged, data both ways -/
+def bridgeHistory : List Event :=
+  [.accept 1, .accept 2, .recv 1 (registerLine idA), .recv 2 (connectLine idB idA), .recv 2 identity,
+   .recv 2 [1, 2, 3], .recv 1 [4, 5]]
+
+set_option maxRecDepth 100000 in
+/-- the hypothesis of `delivery` / `delivery_spec` / `teardown` is met: both ends are bridged, and each
+    write buffer holds exactly the relay's replies followed by the partner's bytes in order -/
+example :
+    ((run init bridgeHistory).get 1).map (fun s => (s.state, s.partner, s.writeBuf)) =
+      some (.bridged, some 2, okRegister ++ (beginPrefix ++ idB ++ [10]) ++ identity ++ [1, 2, 3]) ∧
+    ((run init bridgeHistory).get 2).map (fun s => (s.state, s.partner, s.writeBuf)) =
+      some (.bridged, some 1, okConnect ++ [4, 5]) ∧
+    (viewOf (run init bridgeHistory)).isBridged 2 = true := by decide
+
+set_option maxRecDepth 100000 in
+/-- teardown is not vacuous: the connector leaves, the target's descriptor is closed in the same step -/
+example : (obsOf (newOuts (run init bridgeHistory) (step (run init bridgeHistory) (.eof 2)))).closed = [1, 2] ∧
+    (step (run init bridgeHistory) (.eof 2)).sessions = [] := by decide
+
+/-- the history that broke the unrepaired server: the claimed target (1) sends REGISTER again, then a second
+    connector (3) tries to claim it -/
+def reRegisterHistory : List Event :=
+  [.accept 1, .accept 2, .accept 3, .recv 1 (registerLine idA), .recv 2 (connectLine idB idA),
+   .recv 1 (registerLine idA), .recv 3 (connectLine idC idA)]
+
+set_option maxRecDepth 100000 in
+/-- in the repaired relay the re-REGISTER is refused, the target stays claimed by the first connector only,
+    and the second connector is turned away -/
+example :
+    ((run init reRegisterHistory).get 1).map (fun s => (s.state, s.partner, s.writeBuf)) =
+      some (.registered, some 2, okRegister ++ errAlreadyClaimed) ∧
+    ((run init reRegisterHistory).get 3).map (fun s => (s.state, s.partner, s.writeBuf)) =
+      some (.awaitingCommand, none, errConTargetUnavailable) ∧
+    (run init reRegisterHistory).registered = [] := by decide
+
+/-- the specification does reject the pairing table the unrepaired server reported for that history
+    (`ss=1.R.3.0,2.I.1.0,3.I.1.0`): the predicates are not trivially true -/
+example : ¬ ClaimUnique [⟨1, false, some 3⟩, ⟨2, false, some 1⟩, ⟨3, false, some 1⟩] ∧
+    ¬ Symmetric [⟨1, false, some 3⟩, ⟨2, false, some 1⟩, ⟨3, false, some 1⟩] := by decide
+
+end examples
 
 end EphVerif.C25
